@@ -25,6 +25,7 @@ Fixpoint dec_obs (s : bytes) : list obs :=
                | 4 => OExited (nb a)
                | 5 => OSend (nb a)
                | 6 => OSendEnd (nb a)
+               | 8 => OSettled
                | _ => ORegCount (nb a)
                end in
       o :: dec_obs r
@@ -70,6 +71,25 @@ Definition dispatch (f : bytes) (a : list bytes) : list bytes :=
     | inl s => [b2 true; decn (length h); b2 (quiescentb s); enc_pairs (pending s); decn (length (registered s));
                 enc_clients s; b2 (panicked s)]
     | inr i => [b2 false; decn i]
+    end
+  else if is f "audit" then
+    (* arg: observations.  reply: #settle points reached; #settle points at which the model state is not at rest
+       ([stableb] false); then, for the first such point: its observation index; held_up (c,e) pairs;
+       those of them whose client sits in its select (PLoop: a healthy client not served); clients stalled
+       in a write; clients (id, pc, events received); a Send call still in progress?;
+       all pending (c,e) pairs *)
+    let pts := audit init 0 (dec_obs (arg 0 a)) in
+    let bad := filter (fun p => negb (stableb (snd p))) pts in
+    [decn (length pts); decn (length bad)] ++
+    match bad with
+    | [] => []
+    | (i, s) :: _ =>
+        [decn i; enc_pairs (held_up s);
+         enc_pairs (filter (fun q => pc_eqb (cpc (cl s (fst q))) PLoop) (held_up s));
+         enc_nats (filter (stalledb s) (ids (pred (next_id s))));
+         enc_clients s;
+         b2 (match holder s, waiting s with None, [] => false | _, _ => true end);
+         enc_pairs (pending s)]
     end
   else if is f "run" then
     (* args: variant (1 = old code), schedule.  reply: all enabled?; steps done; panicked?; pending; registered *)
